@@ -52,10 +52,32 @@ def value(o, which):
 
 
 _NETS = {}
+_IDLE = None
+
+
+def _idle_controller_class():
+    """a controller that is in service and always converged: makes runpp(run_control=True) take the control-loop
+    branch (run_control -> inner runpp calls) without changing the network"""
+    global _IDLE
+    if _IDLE is None:
+        from pandapower.control.basic_controller import Controller
+
+        class IdleController(Controller):
+            def is_converged(self, net):
+                return True
+
+            def control_step(self, net):
+                return None
+        IdleController.__module__ = __name__
+        IdleController.__qualname__ = "IdleController"
+        globals()["IdleController"] = IdleController
+        _IDLE = IdleController
+    return _IDLE
 
 
 def net(name):
-    """P: T3 + PV gen with q-limits + line temperature column (no ZIP load: voltage_depend_loads auto-off);
+    """C: P + an idle in-service controller (control-loop branch of runpp(run_control=True));
+    P: T3 + PV gen with q-limits + line temperature column (no ZIP load: voltage_depend_loads auto-off);
     Z: the same with a voltage dependent load (voltage_depend_loads stays on, lightsim2grid auto-off)."""
     if name not in _NETS:
         n = copy.deepcopy(na.base("T3"))
@@ -64,6 +86,8 @@ def net(name):
         if name == "Z":
             n.load["const_z_p_percent"] = 30.
             n.load["const_z_q_percent"] = 30.
+        if name == "C":      # P with an in-service controller
+            _idle_controller_class()(n)
         _NETS[name] = n
     return copy.deepcopy(_NETS[name])
 
